@@ -49,6 +49,11 @@ def gstep (c : Cfg) (σ : RunSt) (g : Ghost) : Op → Ghost
     match (produce c σ.n .fail).2.1 with
     | .qdel b :: _ => { g with released := g.released ++ [b] }
     | _ => g
+  | .produceSame =>
+    match (produce c σ.n .ok .same).2.1 with
+    | .qdel b :: _ => { g with released := g.released ++ [b] }
+    | _ => g
+  | .reapPutFails => g
   | .restart => g.cut σ.ws σ.ws.length
   | .crash k => g.cut σ.ws k
 
@@ -520,28 +525,29 @@ theorem step_prodDel (h : FInv c σ g) {b : Queue.Batch} {rest : List Queue.Batc
 
 end
 
-def produceSt (c : Cfg) (σ : RunSt) (ex : ExecResp) : RunSt :=
-  { n := (produce c σ.n ex).1, before := diskOf σ.n, ws := (produce c σ.n ex).2.1, mempool := σ.mempool }
+def produceSt (c : Cfg) (σ : RunSt) (ex : ExecResp) (clk : Clock := .real) : RunSt :=
+  { n := (produce c σ.n ex clk).1, before := diskOf σ.n, ws := (produce c σ.n ex clk).2.1, mempool := σ.mempool }
 
-/-- the ghost after a production step with the execution answer `ex` -/
-def prodG (c : Cfg) (σ : RunSt) (g : Ghost) (ex : ExecResp) : Ghost :=
-  match (produce c σ.n ex).2.1 with
+/-- the ghost after a production step with the execution answer `ex` and the sequencing layer's clock `clk` -/
+def prodG (c : Cfg) (σ : RunSt) (g : Ghost) (ex : ExecResp) (clk : Clock := .real) : Ghost :=
+  match (produce c σ.n ex clk).2.1 with
   | .qdel b :: _ => { g with released := g.released ++ [b] }
   | _ => g
 
-theorem step_produce {c : Cfg} {σ : RunSt} {g : Ghost} (hc : CfgOK c) (h : FInv c σ g) (ex : ExecResp) :
-    FInv c (produceSt c σ ex) (prodG c σ g ex) := by
+theorem step_produce {c : Cfg} {σ : RunSt} {g : Ghost} (hc : CfgOK c) (h : FInv c σ g) (ex : ExecResp)
+    (clk : Clock := .real) (hclk : clk ≠ .back := by decide) :
+    FInv c (produceSt c σ ex clk) (prodG c σ g ex clk) := by
   obtain ⟨P', sws, pre, q', T, e1, e2, f1, f2, f3, f4, f5, f6, hcase, f7, f8, f9⟩ :=
-    produce_cases hc.signer h.live h.synced h.wm h.first h.tb ex
+    produce_cases hc.signer h.live h.synced h.wm h.first h.tb ex clk hclk
   rcases hcase with ⟨rfl, rfl, rfl⟩ | ⟨b, rest, rfl, hm, rfl, rfl, h2⟩
-  · have e3 : produceSt c σ ex = prodSt σ P' σ.n.q [] sws := by unfold produceSt prodSt; rw [e1, e2]
-    have e4 : prodG c σ g ex = g := by
+  · have e3 : produceSt c σ ex clk = prodSt σ P' σ.n.q [] sws := by unfold produceSt prodSt; rw [e1, e2]
+    have e4 : prodG c σ g ex clk = g := by
       unfold prodG; rw [e2]; cases sws <;> rfl
     rw [e3, e4]
     exact step_prod0 h ⟨f1, f2, f3, f4, f5, f6, f7, f8, f9⟩
-  · have e3 : produceSt c σ ex = prodSt σ P' (Queue.pop key σ.n.q T rest) [FW.qdel T] sws := by
+  · have e3 : produceSt c σ ex clk = prodSt σ P' (Queue.pop key σ.n.q T rest) [FW.qdel T] sws := by
       unfold produceSt prodSt; rw [e1, e2]
-    have e4 : prodG c σ g ex = { g with released := g.released ++ [T] } := by
+    have e4 : prodG c σ g ex clk = { g with released := g.released ++ [T] } := by
       unfold prodG; rw [e2]; rfl
     rw [e3, e4]
     exact step_prodDel h ⟨f1, f2, f3, f4, f5, f6, f7, f8, f9⟩ hm h2
